@@ -1148,7 +1148,8 @@ class Database(object):
                         on_delete = 'SET NULL'
                     else:
                         on_delete = None
-                    table.add_foreign_key(attr.reverse.fk_name, child_columns, parent_table, parent_columns, attr.index,
+                    fk_name = attr.fk_name if attr.fk_name is not None else attr.reverse.fk_name
+                    table.add_foreign_key(fk_name, child_columns, parent_table, parent_columns, attr.index,
                                           on_delete, interleave=attr.interleave)
                 elif attr.index and attr.columns:
                     if isinstance(attr.py_type, Array) and provider.dialect != 'PostgreSQL':
